@@ -5,12 +5,16 @@ package main
 var c01SpecialDocs = []string{
 	`"2015-08-02"`, `"12:34:56"`, `"12:34:56+05:30"`, `"2015-08-02T12:34:56"`, `"2015-08-02 12:34:56-04"`, `"2015-08-02T12:34:56.789+00:00"`,
 	`["2015-08-02","x"]`, `-1.5`, `2.5`, `0`, `"1"`, `"1.5"`, `"x"`, `"true"`, `"t"`, `"-2"`, `[1,"a",null]`, `{"a":[1,2],"b":{"a":1}}`, `[[1,2],[3]]`,
-	`{"a":{"b":1}}`, `[0,1]`, `2147483648`, `1e308`, `[1e308,10]`, `{"a":1e308,"b":-1e308}`, `5e-324`, `9223372036854775807`, `[-9223372036854775808,1]`, `10000000000`, `[1.5,-1]`, `{"a":"2015-08-02","b":"2015-08-03"}`, `[[1],[[2]]]`, `{"a":null,"b":[]}`,
+	`{"a":{"b":1}}`, `[0,1]`, `[[1,2],5,6,7]`, `[[1,2,3],5]`, `[[0],5,6]`, `2147483648`, `1e308`, `[1e308,10]`, `{"a":1e308,"b":-1e308}`, `5e-324`, `9223372036854775807`, `[-9223372036854775808,1]`, `10000000000`, `[1.5,-1]`, `{"a":"2015-08-02","b":"2015-08-03"}`, `[[1],[[2]]]`, `{"a":null,"b":[]}`,
 }
 
 func c01Docs(k int) []docEntry {
 	vals := Docs(k, stdScalars, stdKeys)
 	for _, s := range c01SpecialDocs {
+		vals = append(vals, mustDoc(s, "float64"))
+	}
+	// numbers that exist as json.Number only (outside the double range; -0; exponent spellings)
+	for _, s := range []string{`1e400`, `-1e400`, `[1,1e400]`, `{"a":-1e400}`, `1e-400`} {
 		vals = append(vals, mustDoc(s, "float64"))
 	}
 	return makeDocs(vals)
@@ -56,6 +60,7 @@ func runC01(r *Run) {
 	for _, cd := range condPool(8) {
 		es = append(es, eRoot(sFilter(cd.e)), eRoot(sAnyArray(), sFilter(cd.e)))
 	}
+	es = append(es, lastAfterFailingSubscript()...)
 	docs := c01Docs(K)
 	r.Bound("documents", len(docs))
 	groups := map[[2]bool][]*Expr{}
@@ -72,4 +77,35 @@ func runC01(r *Run) {
 		}
 	}
 	r.Bound("paths", total)
+}
+
+// lastAfterFailingSubscript: `last` (and the following subscripts) evaluated after a nested subscript
+// failed inside a construct that swallows the failure: the enclosing array's size is still the one
+// `last` refers to. X is a bound that evaluates to 0 after such a failure.
+func lastAfterFailingSubscript() []*Expr {
+	idx := func(e ...*Expr) *Expr {
+		subs := make([]Sub, len(e))
+		for i, x := range e {
+			subs[i] = sub1(x)
+		}
+		return sIndex(subs...)
+	}
+	var inner []*Expr // failing inner subscripts on $[0] (an array of another size than $)
+	for _, bad := range []*Expr{eStr("x"), eRoot(), eInt(9), eNull()} {
+		inner = append(inner, eRoot(idx(eInt(0)), idx(bad)), eRoot(idx(eInt(0)), sIndex(subR(eInt(0), bad))), eRoot(idx(eInt(0)), idx(eInt(0), bad)))
+	}
+	inner = append(inner, eRoot(idx(eInt(0)), sIndex(subR(eInt(1), eInt(0)))))
+	var xs []*Expr
+	for _, in := range inner {
+		xs = append(xs,
+			eInt(0).withSteps(sFilter(eIsUnknown(eCmp("==", in, eInt(1))))),
+			eInt(0).withSteps(sFilter(eOr(eIsUnknown(eExists(in)), eNot(eExists(in))))),
+			eInt(0).withSteps(sFilter(eOr(eCmp("==", in, eInt(1)), eCmp("==", eCur(), eInt(0))))))
+	}
+	var es []*Expr
+	for _, x := range xs {
+		es = append(es, eRoot(sIndex(subR(x, eLast()))), eRoot(idx(x, eLast())), eRoot(idx(eLast(), x, eLast())), eRoot(sIndex(subR(x, lastMinus(1)))),
+			eRoot(sIndex(subR(x, eLast())), sIndex(sub1(eLast()))), eRoot(sAnyArray(), sFilter(eCmp("==", eCur(), eRoot(sIndex(sub1(x), sub1(eLast())))))))
+	}
+	return es
 }
